@@ -26,6 +26,13 @@ UNIT = dict(
             ("addarg", ["call"], TR, 2),
         ]),
     },
+    frame=[
+        # the assumed contracts of `timeout(d, f)` (polls f before it looks at the deadline) and of the select! shim (a result that has
+        # arrived is taken) rest on this: a select! that can examine the expired timer BEFORE the ready result hands the caller a timeout
+        # error for a call that finished before its deadline whenever the caller polls late
+        dict(name="a_ready_result_is_never_passed_over_for_an_expired_timer", tags=["C06"], select_timer_last=r"\bsleep(_until)?\s*\(",
+             glob=TL + "lib.rs", violation=True),
+    ],
     types=[
         ("enum", "TimeLimiterError", "error"),
         ("struct", "DynamicTimeout", "config"),
